@@ -97,8 +97,11 @@ where
     /// assert_eq!(0, framework.iter_attacks().count());
     /// ```
     pub fn new_with_argument_set(arguments: ArgumentSet<T>) -> Self {
-        let attacks_from = (0..arguments.len()).map(|_| vec![]).collect();
-        let attacks_to = (0..arguments.len()).map(|_| vec![]).collect();
+        // the identifiers of an argument set from which arguments were removed are sparse:
+        // the indexes are sized by the largest identifier, not by the number of arguments
+        let n_ids = arguments.max_id().map_or(0, |id| id + 1);
+        let attacks_from = (0..n_ids).map(|_| vec![]).collect();
+        let attacks_to = (0..n_ids).map(|_| vec![]).collect();
         AAFramework {
             arguments,
             attacks: vec![],
